@@ -417,11 +417,11 @@ theorem atBoundary_append {n m : Nat} {al al' al'' : List (Bytes × Bytes)} {dec
   rw [e, List.append_assoc, h1 (fuel + m) (Q ++ R), h2 fuel R]
 
 /-- the written text of a conforming deck ends at a keyword boundary. -/
-theorem atBoundary_written (fmt : Bytes → Bytes) (flush : Bool) (al : List (Bytes × Bytes)) (deck : DeckT) (ks : List DK)
-    (h : Conforms cv fmt flush tbl recog deck ks) :
-    AtBoundary cv tbl recog files ks.length al deck (deckText fmt flush ks) al (deck ++ ks.map (DK.result fmt)) := by
+theorem atBoundary_written (fmt : Bytes → Bytes) (fl : List Vals → Bool) (al : List (Bytes × Bytes)) (deck : DeckT) (ks : List DK)
+    (h : Conforms cv fmt fl tbl recog deck ks) :
+    AtBoundary cv tbl recog files ks.length al deck (deckText fmt fl ks) al (deck ++ ks.map (DK.result fmt)) := by
   intro fuel R
-  exact parseLoop_written_deck cv fmt flush tbl recog files al R ks fuel deck h
+  exact parseLoop_written_deck cv fmt fl tbl recog files al R ks fuel deck h
 
 /-- a blank, whitespace-only or comment-only line at a keyword boundary. -/
 theorem atBoundary_blank (al : List (Bytes × Bytes)) (deck : DeckT) (l : Bytes) (hl : ∀ b ∈ l, b ≠ 10)
@@ -787,26 +787,26 @@ def AtBoundaryL (n : Nat) (al : List (Bytes × Bytes)) (deck : DeckT) (L : List 
   ∀ (fuel : Nat) (rest : List Bytes), parseLoop cv tbl recog files (fuel + n) al deck (L ++ rest) =
     parseLoop cv tbl recog files fuel al' deck' rest
 
-theorem atBoundaryL_written (fmt : Bytes → Bytes) (flush : Bool) (al : List (Bytes × Bytes)) (deck : DeckT) (ks : List DK)
-    (h : Conforms cv fmt flush tbl recog deck ks) :
-    AtBoundaryL cv tbl recog files ks.length al deck (deckLines fmt flush ks) al (deck ++ ks.map (DK.result fmt)) := by
+theorem atBoundaryL_written (fmt : Bytes → Bytes) (fl : List Vals → Bool) (al : List (Bytes × Bytes)) (deck : DeckT) (ks : List DK)
+    (h : Conforms cv fmt fl tbl recog deck ks) :
+    AtBoundaryL cv tbl recog files ks.length al deck (deckLines fmt fl ks) al (deck ++ ks.map (DK.result fmt)) := by
   intro fuel rest
-  exact parseLoop_written_deck_lines cv fmt flush tbl recog files al rest ks fuel deck h
+  exact parseLoop_written_deck_lines cv fmt fl tbl recog files al rest ks fuel deck h
 
 /-- the lines of a file holding the written text of a conforming deck (the file is cleaned
 with a '\n' appended, which gives one empty line more). -/
-theorem atBoundaryL_written_file (fmt : Bytes → Bytes) (flush : Bool) (al : List (Bytes × Bytes)) (deck : DeckT) (ks : List DK)
-    (h : Conforms cv fmt flush tbl recog deck ks) :
-    AtBoundaryL cv tbl recog files (ks.length + 1) al deck (linesOf (deckText fmt flush ks ++ [10])) al
+theorem atBoundaryL_written_file (fmt : Bytes → Bytes) (fl : List Vals → Bool) (al : List (Bytes × Bytes)) (deck : DeckT) (ks : List DK)
+    (h : Conforms cv fmt fl tbl recog deck ks) :
+    AtBoundaryL cv tbl recog files (ks.length + 1) al deck (linesOf (deckText fmt fl ks ++ [10])) al
       (deck ++ ks.map (DK.result fmt)) := by
   intro fuel rest
-  have hl : linesOf (deckText fmt flush ks ++ [10]) = deckLines fmt flush ks ++ [[]] := by
+  have hl : linesOf (deckText fmt fl ks ++ [10]) = deckLines fmt fl ks ++ [[]] := by
     unfold linesOf
-    rw [linesOf_deckText cv fmt flush tbl recog [10] ks deck h]
+    rw [linesOf_deckText cv fmt fl tbl recog [10] ks deck h]
     have : splitLines (fastClean [10]) = [[]] := by decide
     rw [this]
   have e : fuel + (ks.length + 1) = (fuel + 1) + ks.length := by omega
-  rw [hl, e, List.append_assoc, atBoundaryL_written cv tbl recog files fmt flush al deck ks h (fuel + 1) ([[]] ++ rest)]
+  rw [hl, e, List.append_assoc, atBoundaryL_written cv tbl recog files fmt fl al deck ks h (fuel + 1) ([[]] ++ rest)]
   simp [parseLoop, parseStep]
 
 /-- behind a prefix that ends at a keyword boundary, parsing the whole text is parsing the
